@@ -871,7 +871,7 @@ func (x *Exec) sliceExpr(env *evalEnv, n *ast.SliceExpr) Val {
 		x.oblige(env, "bounds", n.Pos(), and("(<= 0 "+lo+")", "(<= "+lo+" "+hi+")", "(<= "+hi+" "+x.ctx.slLen(base)+")"), "slice bounds: "+exprStr(n))
 	}
 	if lo == "0" {
-		return Val{x.ctx.mkSlice(base.Ty, x.ctx.slArr(base), hi, "false"), base.Ty}
+		return Val{x.ctx.mkSlice(base.Ty, x.ctx.slArr(base), hi, "false", x.ctx.slBid(base)), base.Ty}
 	}
 	if x.inSpec > 0 {
 		x.fail(n.Pos(), "UNSUPPORTED reslice with non-zero low bound inside a spec expression")
@@ -880,7 +880,7 @@ func (x *Exec) sliceExpr(env *evalEnv, n *ast.SliceExpr) Val {
 	arr := x.ctx.Fresh("resl", fmt.Sprintf("(Array Int %s)", es))
 	x.st.assume(fmt.Sprintf("(forall ((i Int)) (! (= (select %s i) (select %s (+ i %s))) :pattern ((select %s i))))", arr, x.ctx.slArr(base), lo, arr))
 	x.st.assume(fmt.Sprintf("(forall ((j Int)) (! (= (select %s (- j %s)) (select %s j)) :pattern ((select %s j))))", arr, lo, x.ctx.slArr(base), x.ctx.slArr(base)))
-	return Val{x.ctx.mkSlice(base.Ty, arr, "(- "+hi+" "+lo+")", "false"), base.Ty}
+	return Val{x.ctx.mkSlice(base.Ty, arr, "(- "+hi+" "+lo+")", "false", x.ctx.slBid(base)), base.Ty}
 }
 
 // ---------- composite literals ----------
@@ -928,7 +928,7 @@ func (x *Exec) composite(env *evalEnv, n *ast.CompositeLit, t types.Type) Val {
 			v := x.exprAs(env, el, u.Elem())
 			arr = fmt.Sprintf("(store %s %d %s)", arr, i, v.S)
 		}
-		return Val{x.ctx.mkSlice(t, arr, fmt.Sprint(len(n.Elts)), "false"), t}
+		return Val{x.ctx.mkSlice(t, arr, fmt.Sprint(len(n.Elts)), "false", x.freshBid()), t}
 	case *types.Map:
 		m := Val{x.ctx.Zero(t), t}
 		for _, el := range n.Elts {
